@@ -112,7 +112,7 @@ func (c C20) Run(t *tape.Tape, opt core.RunOpt) (res core.Result) {
 	family := t.Draw(5)
 	nextSid, nextEv := 1, 1
 	newSub := func(topic string) *workload.SimSub {
-		sb := &workload.SimSub{ID: nextSid, Topic: topic, SelIndex: t.Draw(len(workload.SubSelections)), Alias: t.Bool(1, 3), Named: t.Bool(1, 3)}
+		sb := &workload.SimSub{ID: nextSid, Topic: topic, SelIndex: t.Draw(len(workload.SubSelections)), Alias: t.Bool(1, 3), Named: t.Bool(1, 3), UseVar: t.Bool(1, 2)}
 		nextSid++
 		if t.Bool(1, 3) {
 			sb.FailFrom = 1 + t.Draw(2)
